@@ -499,7 +499,12 @@ def _project(acs):
              "posA": enc.pos(latlon, "air"), "posS": enc.pos(latlon, "surf"),
              "r": round(latlon[0] * 1048576 / 360), "s": round(latlon[1] * 1048576 / 360),
              "e": _slot(ac, 0), "o": _slot(ac, 1),
-             "cb": 1 if any(ac.get(k) is not None for k in _CB_KEYS) else 0}
+             "cb": 1 if any(ac.get(k) is not None for k in _CB_KEYS) else 0,
+             "c": {"call": enc.res(ac.get("call")), "gs": enc.res(ac.get("gs"), 8), "trk": enc.res(ac.get("trk"), "ang"),
+                   "roc": enc.res(ac.get("roc")), "alt": enc.res(ac.get("alt"), 1), "tas": enc.res(ac.get("tas"), 1),
+                   "roll": enc.res(ac.get("roll"), 256), "rtrk": enc.res(ac.get("rtrk"), 32), "trk50": enc.res(ac.get("trk50"), 512),
+                   "gs50": enc.res(ac.get("gs50"), 1), "ias": enc.res(ac.get("ias"), 1), "hdg": enc.res(ac.get("hdg"), 512),
+                   "mach": enc.res(ac.get("mach"), 250), "rb": enc.res(ac.get("roc60baro"), 1), "ri": enc.res(ac.get("roc60ins"), 1)}}
         out.append(e)
     out.sort(key=lambda x: x["addr"])
     return out, dup
